@@ -22,6 +22,12 @@ from golem.core.optimisers.opt_history_objects.individual import Individual
 from golem.core.optimisers.optimization_parameters import GraphRequirements
 from golem.core.optimisers.optimizer import GraphGenerationParams
 from golem.core.optimisers.populational_optimizer import EvaluationAttemptsError
+from golem.core.adapter.adapter import IdentityAdapter
+from golem.core.dag.verification_rules import DEFAULT_DAG_RULES
+from golem.core.optimisers.genetic.gp_optimizer import EvoGraphOptimizer
+from golem.core.optimisers.genetic.operators.base_mutations import MutationTypesEnum
+from golem.core.optimisers.objective import Objective
+from golem.core.optimisers.opt_node_factory import DefaultOptNodeFactory
 
 REQ = ['Fitness.Fitness', 'Evo.Selection', 'Evo.Elitism', 'Evo.Inheritance', 'Evo.Reproduction']
 # dyadic fitness alphabets with many ties
@@ -282,7 +288,7 @@ def eval_selection(ctx, cases, group='selection', given=None):
         terms.append(selection_coq(c, [[1, ['S', 0.5]], [1, ['S', 0.5]]]))
         ctx.canaries += 1
         canary = True
-    res = ctx.coq_cases(group, REQ, SEL_FN, terms, 2, preamble=PRE, shard=SHARD)
+    res = ctx.coq_cases(group, REQ, SEL_FN, terms, 2, preamble=PRE + PRE_BIG, shard=SHARD)
     if canary:
         if res[-1] == (False, False):
             ctx.canaries_caught += 1
@@ -389,7 +395,7 @@ def eval_elitism(ctx, cases, group='elitism', given=None):
              'best': [[0, ['S', 0.5], 0]], 'new': [[0, ['S', 0.5], 0], [1, ['S', 1.0], 0]]}
         terms.append(elitism_coq(c, [[0, ['S', 0.5]], [0, ['S', 0.5]]]))
         ctx.canaries += 1
-    res = ctx.coq_cases(group, REQ, ELI_FN, terms, 4, preamble=PRE, shard=SHARD)
+    res = ctx.coq_cases(group, REQ, ELI_FN, terms, 4, preamble=PRE + PRE_BIG, shard=SHARD)
     if canary:
         if res[-1][0] is False and res[-1][1] is False:
             ctx.canaries_caught += 1
@@ -480,7 +486,7 @@ def eval_inheritance(ctx, cases, group='inheritance', given=None):
              'new': [[0, ['S', 0.5], 0], [1, ['S', 1.0], 0]]}
         terms.append(inheritance_coq(c, [[0, ['S', 0.5]], [1, ['S', 1.0]]]))
         ctx.canaries += 1
-    res = ctx.coq_cases(group, REQ, INH_FN, terms, 2, preamble=PRE, shard=SHARD)
+    res = ctx.coq_cases(group, REQ, INH_FN, terms, 2, preamble=PRE + PRE_BIG, shard=SHARD)
     if canary:
         if res[-1] == (False, False):
             ctx.canaries_caught += 1
@@ -621,13 +627,13 @@ def gen_reproduction_cases(ctx):
     return cases
 
 
-def eval_reproduction(ctx, cases, group='reproduction'):
+def eval_reproduction(ctx, cases, group='reproduction', given=None):
     from golem.core import constants
     assert constants.MIN_POP_SIZE == 5 and constants.EVALUATION_ATTEMPTS_NUMBER == 5, \
         'MIN_POP_SIZE / EVALUATION_ATTEMPTS_NUMBER changed: update the constants passed to the model'
     terms, obs_all = [], []
-    for c in cases:
-        observed = run_reproduction_case(c)
+    for k, c in enumerate(cases):
+        observed = given[k] if given is not None else run_reproduction_case(c)
         obs_all.append(observed)
         terms.append(reproduction_coq(c, observed))
     canary = group == 'reproduction'
@@ -773,8 +779,205 @@ def eval_sessions(ctx, sessions, group='sessions'):
 
 
 # ----------------------------------------------------------------------------------------
+# real optimiser runs: EvoGraphOptimizer.optimise() with every call of reproducer.reproduce,
+# inheritance and elitism observed on the instance, each judged for the parameters IN FORCE at
+# that call (optimizer.graph_optimizer_params after _update_requirements)
+# ----------------------------------------------------------------------------------------
+RUN_NODE_TYPES = ['a', 'b', 'c', 'd']
+
+
+def _chain(names):
+    node = None
+    for name in names:
+        node = OptNode(name, nodes_from=[node] if node else [])
+    return OptGraph(node)
+
+
+class RunMetric:
+    """dyadic metric values with many ties; optionally fails on some graphs (the evaluator then
+    drops the individual)"""
+
+    def __init__(self, kind, fail_mod):
+        self.kind, self.fail_mod = kind, fail_mod
+
+    def __call__(self, graph):
+        names = [str(n.content['name']) for n in graph.nodes]
+        if self.fail_mod and len(names) % self.fail_mod == 0:
+            raise ValueError('scripted evaluation failure')
+        if self.kind == 'size':
+            return float(abs(len(names) - 6)) + 0.25 * float(names.count('a') % 3)
+        return float(graph.depth) * 0.5 + float(names.count('b') % 2)
+
+
+def _fit_desc(f):
+    if not f.valid:
+        return ['S', None]
+    v = [float(x) for x in f.values]
+    return ['S', v[0]] if len(v) == 1 else ['M', v[0], v[1]]
+
+
+def _sel_name(params):
+    t = params.selection_types[0]
+    return {SelectionTypesEnum.tournament: 'tournament', SelectionTypesEnum.spea2: 'spea2'}.get(t, 'tournament')
+
+
+def run_optimiser_case(cfg):
+    seed_impl(cfg['seed'])
+    metrics = {'size': RunMetric('size', cfg['fail_mod'])}
+    if cfg['multi']:
+        metrics['depth'] = RunMetric('depth', 0)
+    objective = Objective(metrics, is_multi_objective=cfg['multi'])
+    req = GraphRequirements(num_of_generations=cfg['generations'], timeout=None, early_stopping_iterations=100,
+                            early_stopping_timeout=None, keep_n_best=cfg['keep_n_best'], n_jobs=1, show_progress=False,
+                            parallelization_mode='single', keep_history=False, max_depth=8, max_arity=3)
+    gp = GPAlgorithmParameters(pop_size=cfg['pop_size'], max_pop_size=cfg['max_pop_size'], multi_objective=cfg['multi'],
+                               offspring_rate=cfg['offspring_rate'], required_valid_ratio=cfg['ratio'],
+                               genetic_scheme_type=SCH[cfg['sc']][0], elitism_type=ELI[cfg['et']][0],
+                               selection_types=[SEL[cfg['t']][0]],
+                               crossover_types=[CrossoverTypesEnum[c] for c in cfg['crossover']],
+                               mutation_types=[MutationTypesEnum.single_add, MutationTypesEnum.single_change,
+                                               MutationTypesEnum.single_drop, MutationTypesEnum.simple],
+                               mutation_prob=cfg['mutation_prob'], crossover_prob=0.5,
+                               structural_diversity_frequency_check=-1, max_num_of_operator_attempts=20)
+    gen = GraphGenerationParams(adapter=IdentityAdapter(), rules_for_constraint=list(DEFAULT_DAG_RULES),
+                                node_factory=DefaultOptNodeFactory(RUN_NODE_TYPES))
+    initial = [_chain(names) for names in cfg['initial']]
+    opt = EvoGraphOptimizer(objective, initial, req, gen, gp)
+    names = {}
+
+    def desc(ind):
+        return [names.setdefault(ind.uid, len(names)), _fit_desc(ind.fitness)]
+
+    def in_force():
+        p = opt.graph_optimizer_params
+        return {'pop_size': int(p.pop_size), 'min_pop': int(p.min_pop_size_with_elitism), 'multi': bool(p.multi_objective),
+                'et': {v[0]: k for k, v in ELI.items()}[p.elitism_type],
+                'sc': {v[0]: k for k, v in SCH.items()}[p.genetic_scheme_type], 't': _sel_name(p),
+                'ratio': float(p.required_valid_ratio),
+                'own_pop_size': {'reproducer': int(opt.reproducer.parameters.pop_size),
+                                 'selection': int(opt.selection.parameters.pop_size),
+                                 'inheritance': int(real_inh.parameters.pop_size),
+                                 'elitism': int(real_eli.parameters.pop_size)}}
+
+    rep_obs, inh, eli = [], [], []
+    real_reproduce, real_inh, real_eli = opt.reproducer.reproduce, opt.inheritance, opt.elitism
+    real_selection = opt.reproducer.selection
+    sizes = []
+
+    def watching_selection(population, pop_size=None):
+        sizes.append(pop_size)
+        return real_selection(population, pop_size)
+
+    opt.reproducer.selection = watching_selection
+
+    def watched_reproduce(population, evaluator):
+        state = in_force()
+        returned = []
+
+        def watching_evaluator(pop):
+            out = evaluator(pop)
+            returned.append(list(out or []))
+            return out
+
+        del sizes[:]
+        obs = {'target': state['pop_size'], 'pop_len': len(population), 'in_force': state}
+        for ind in population:
+            desc(ind)
+        try:
+            res = real_reproduce(population, watching_evaluator)
+            obs['result'] = ['ret', [desc(i) for i in res]]
+        except EvaluationAttemptsError:
+            obs['result'] = ['attempts-error', None]
+            raise
+        except Exception as ex:
+            obs['result'] = ['other-error', '%s: %s' % (type(ex).__name__, ex)]
+            raise
+        finally:
+            obs['partials'] = [[desc(i) for i in part] for part in returned]
+            obs['sizes'] = [int(x) if x else 0 for x in sizes]
+            rep_obs.append(obs)
+        return res
+
+    def watched_inheritance(prev, new):
+        state = in_force()
+        c = {'op': 'inh', 'sc': state['sc'], 't': state['t'], 'multi': state['multi'], 'pop_size': state['pop_size'],
+             'prev': [desc(i) + [0] for i in prev], 'new': [desc(i) + [0] for i in new], 'in_force': state}
+        out = real_inh(prev, new)
+        inh.append((c, [desc(i) for i in out]))
+        return out
+
+    def watched_elitism(best, new):
+        state = in_force()
+        c = {'op': 'eli', 'et': state['et'], 'multi': state['multi'], 'pop_size': state['pop_size'],
+             'min_pop': state['min_pop'], 'best': [desc(i) + [0] for i in best], 'new': [desc(i) + [0] for i in new],
+             'in_force': state}
+        out = real_eli(best, new)
+        eli.append((c, [desc(i) for i in out]))
+        return out
+
+    opt.reproducer.reproduce = watched_reproduce
+    opt.inheritance = watched_inheritance
+    opt.elitism = watched_elitism
+    outcome = 'finished'
+    try:
+        opt.optimise(objective)
+    except Exception as ex:
+        outcome = '%s: %s' % (type(ex).__name__, ex)
+    return {'rep': rep_obs, 'inh': inh, 'eli': eli, 'outcome': outcome}
+
+
+def gen_runs(ctx):
+    r = ctx.rng
+    runs = []
+    for k in range(ctx.budget(9, 60)):
+        sc = ['steady_state', 'parameter_free', 'generational'][k % 3]
+        multi = r.random() < 0.25
+        n0 = r.randint(3, 6)
+        runs.append({'op': 'run', 'sc': sc, 'multi': multi, 'et': r.choice(['keep_n_best', 'replace_worst', 'keep_n_best', 'none']),
+                     't': 'spea2' if multi else r.choice(['tournament', 'tournament', 'spea2']),
+                     'pop_size': r.choice([4, 5, 5, 6]), 'max_pop_size': r.choice([10, 14, 18]),
+                     'offspring_rate': 1.0 if sc == 'generational' else 0.5, 'ratio': r.choice([0.5, 0.75, 0.875]),
+                     'generations': r.randint(3, 4), 'keep_n_best': r.choice([1, 3]),
+                     'crossover': r.choice([['none'], ['one_point'], ['subtree', 'one_point']]),
+                     'mutation_prob': r.choice([0.5, 0.8, 1.0]), 'fail_mod': r.choice([0, 0, 4, 3]),
+                     'initial': [[r.choice(RUN_NODE_TYPES) for _ in range(r.randint(1, 4))] for _ in range(n0)],
+                     'seed': r.randrange(10 ** 6)})
+    return runs
+
+
+def eval_runs(ctx, runs, group='runs'):
+    rep_cases, rep_given, inh_c, inh_o, eli_c, eli_o = [], [], [], [], [], []
+    for cfg in runs:
+        rec = run_optimiser_case(cfg)
+        tag = {'run': cfg}
+        moved = len({o['target'] for o in rec['rep']}) > 1
+        ctx.count(group, key=('run', cfg['seed'], cfg['sc'], tuple(map(tuple, cfg['initial']))), nontrivial=moved,
+                  scheme=cfg['sc'], outcome=rec['outcome'][:40], reproduce_calls=len(rec['rep']), pop_size_moved=moved)
+        if not rec['rep']:
+            ctx.error(group, 'optimiser run performed no reproduce() call: %s (%s)' % (rec['outcome'], cfg))
+            continue
+        # one rcall sequence per run: the controller's success-rate window persists over the calls
+        rep_cases.append(dict(tag, op='rep', ratio=cfg['ratio'], window=10, pop_len=rec['rep'][0]['pop_len'],
+                              mutation_prob=cfg['mutation_prob'], seed=cfg['seed']))
+        rep_given.append(rec['rep'])
+        for c, o in rec['inh']:
+            inh_c.append(dict(c, **tag, seed=cfg['seed']))
+            inh_o.append(o)
+        for c, o in rec['eli']:
+            eli_c.append(dict(c, **tag, seed=cfg['seed']))
+            eli_o.append(o)
+    if rep_cases:
+        eval_reproduction(ctx, rep_cases, group=group, given=rep_given)
+    if inh_c:
+        eval_inheritance(ctx, inh_c, group=group, given=inh_o)
+    if eli_c:
+        eval_elitism(ctx, eli_c, group=group, given=eli_o)
+    return [None] * len(runs)
+
+
+# ----------------------------------------------------------------------------------------
 EVAL = {'sel': eval_selection, 'eli': eval_elitism, 'inh': eval_inheritance, 'rep': eval_reproduction,
-        'session': eval_sessions}
+        'session': eval_sessions, 'run': eval_runs}
 
 
 def run(ctx):
@@ -811,7 +1014,7 @@ def run(ctx):
         _eval_replays(ctx, pending)
     groups = [('sel', gen_selection_cases(ctx)), ('eli', gen_elitism_cases(ctx)),
               ('inh', gen_inheritance_cases(ctx)), ('rep', gen_reproduction_cases(ctx)),
-              ('session', gen_sessions(ctx))]
+              ('session', gen_sessions(ctx)), ('run', gen_runs(ctx))]
     for op, cases in groups:
         outs = EVAL[op](ctx, cases)
         for c, o in list(zip(cases, outs))[-1:]:
@@ -831,13 +1034,15 @@ def _replay_cases(payload):
         return []
     if 'session' in case:          # a call inside a session: replay the whole session
         return [case['session']]
+    if 'run' in case:              # a call observed inside an optimiser run: replay the run
+        return [case['run']]
     case = {k: val for k, val in case.items() if k not in ('observed', 'exception')}
     # the operators are randomised: replay the input under several seeds of the implementation
     return [dict(case, seed=case.get('seed', 0) + i) for i in range(20 if case['op'] != 'rep' else 1)]
 
 
 def _eval_replays(ctx, cases):
-    for op in ('sel', 'eli', 'inh', 'rep', 'session'):
+    for op in ('sel', 'eli', 'inh', 'rep', 'session', 'run'):
         sub = [c for c in cases if c['op'] == op]
         if sub:
             EVAL[op](ctx, sub, group='replay')
